@@ -184,7 +184,7 @@ func cmpDecoded(def *refcodec.Msg, obj interface{}, ref *refcodec.Result) (slot 
 		if present != f.Present {
 			return sl.Name, fmt.Sprintf("present=%v, reference decoder says %v", present, f.Present)
 		}
-		if !present {
+		if !present || f.Skip {
 			continue
 		}
 		v := readElem(e)
